@@ -1,2 +1,28 @@
-(* C07.  Theorems are added here as they are proved. *)
-From PJ.Model Require Import Base.
+(* C07 -- frame boundaries never change content; grouped parsing is one sink per frame. *)
+From PJ.Model Require Import Base Terms Encoder Streams Decoder.
+From PJ.Proofs Require Import DecoderProofs.
+
+(* The flat parse (events in order, and whether/where it fails) depends only on the row sequence:
+   any two partitions of the same rows into frames -- empty frames and metadata included -- give
+   the same result, from any decoder state. *)
+Theorem C07_partition :
+  forall (ig : integ) (ak : adapter_kind) (po : poptions) (fs1 fs2 : list frame) (st : dstate),
+    flat_map f_rows fs1 = flat_map f_rows fs2 ->
+    flat_obs (decode_frames ig ak po fs1 st) = flat_obs (decode_frames ig ak po fs2 st).
+Proof. exact repartition_invariant. Qed.
+Print Assumptions C07_partition.
+
+(* Grouped parsing yields exactly one result per frame, in order, each carrying that frame's metadata. *)
+Theorem C07_grouped_one_per_frame :
+  forall (ig : integ) (ak : adapter_kind) (po : poptions) (fs : list frame) (st : dstate),
+    last_err (decode_frames ig ak po fs st) = None ->
+    map (fun fr => fst (fst fr)) (decode_frames ig ak po fs st) = map f_meta fs.
+Proof. exact grouped_one_per_frame. Qed.
+Print Assumptions C07_grouped_one_per_frame.
+
+(* The concatenation of the grouped results is the flat parse of the concatenated rows. *)
+Theorem C07_grouped_concat_is_flat :
+  forall (ig : integ) (ak : adapter_kind) (po : poptions) (fs : list frame) (st : dstate),
+    flat_obs (decode_frames ig ak po fs st) = rows_obs ig ak po (flat_map f_rows fs) st.
+Proof. exact flat_is_rows. Qed.
+Print Assumptions C07_grouped_concat_is_flat.
